@@ -59,7 +59,7 @@ Definition optz (z : Z) : option Z := if z <? 0 then None else Some z.
 
 Definition parse_front (v : value) : option front :=
   match v with
-  | VZ src => Some (FrontIP src)
+  | VL [VZ src; VZ sport] => Some (FrontIP src sport)
   | VL [VZ dok; VZ nl; VZ last; VZ lok; VZ sia; VZ dia; VZ sh; VZ dh; VZ e2e; VZ ts; VZ au] =>
       Some (FrontSCION {| sv_decode_ok := zb dok; sv_nlayers := nl; sv_last := last; sv_len_ok := zb lok;
                           sv_src_ia := sia; sv_dst_ia := dia; sv_src_host := optz sh; sv_dst_host := optz dh;
